@@ -16,7 +16,8 @@ cargo build --offline -q -p abra_cli 2>&1 | tail -3
 run_demo > /tmp/wt/$id.broken.txt
 if cmp -s /tmp/wt/$id.clean.txt /tmp/wt/$id.broken.txt; then echo "DEMO DOES NOT DISTINGUISH (cli)"; else echo "demo distinguishes: OK"; fi
 echo "--- running test suite with the change"
-cargo test --workspace --no-fail-fast --offline 2>&1 | grep -E "^test result|FAILED|failed|error(\[|:)" | head -20
+cargo test --workspace --no-fail-fast --offline > /tmp/wt/$id.tests.txt 2>&1
+echo "tests: $(grep -c '^test result: ok' /tmp/wt/$id.tests.txt) suites ok, $(grep -cE '^test result: FAILED|^error' /tmp/wt/$id.tests.txt) failed/errors, passed=$(grep '^test result' /tmp/wt/$id.tests.txt | sed 's/.*ok. \([0-9]*\) passed.*/\1/' | paste -sd+ | bc)"
 git checkout -- .
 mkdir -p /verif/seeded/$ID
 cp -r $OUT/* /verif/seeded/$ID/
